@@ -173,6 +173,9 @@ def check(cx):
     # ---- R1.10 the text travels unchanged through the parser
     r10 = cx.rule('R1.10', 'target and text reach the handler exactly as sent (imported)', floor=1, kind='dependency')
     depends(cx, r10, 'C13', ('R13.8', 'R13.9', 'R13.13'), 'the tokeniser hands over the trailing parameter unchanged')
+    depends(cx, r10, 'C13', ('R13.14',), 'target list and text are the parameters as sent', only=r'\|(PRIVMSG|NOTICE)\.')
+    depends(cx, r10, 'C13', ('R13.5',), 'the relayed line reaches the socket whole (buffer and encoder do not alter it)',
+            only=r'line-altered|IRCLinesCodec::encode')
 
     # ---- R1.8 the source string
     r8 = cx.rule('R1.8', 'source string integrity', floor=8, kind='provenance')
